@@ -27,5 +27,6 @@ pub mod c19;
 
 
 use c16::A;
+use redis_sim::redis::Command;
 
 include!("registry.rs");
